@@ -117,8 +117,15 @@ def refusal_cases(exe, h5):
         with open(os.path.join(d, "garbage.h5"), "wb") as f:
             f.write(b"this is not an hdf5 file\n" * 10)
         open(os.path.join(d, "empty.h5"), "wb").close()
-        for name, why in (("missing.h5", "missing file"), ("garbage.h5", "not an HDF5 file"), ("empty.h5", "empty file"),
-                          ("mb.h5", "multi-bunch results file")):
+        # legal HDF5 files that hold no usable phase-space record (harness/h5make)
+        import subprocess
+        odd = [("empty3", "HDF5 file whose phase-space data set holds no record"), ("empty4", "HDF5 file (rank 4) without a record"),
+               ("scalar", "HDF5 file with a scalar phase-space data set"), ("rank2", "HDF5 file with a rank-2 phase-space data set"),
+               ("nodata", "HDF5 file without a phase-space data set"), ("multibunch", "HDF5 file with a two-bunch record")]
+        for kind, _ in odd:
+            subprocess.run([lib.build_h5make(), os.path.join(d, "odd_%s.h5" % kind), kind, "16"], check=True)
+        for name, why in [("missing.h5", "missing file"), ("garbage.h5", "not an HDF5 file"), ("empty.h5", "empty file"),
+                          ("mb.h5", "multi-bunch results file")] + [("odd_%s.h5" % k, w) for k, w in odd]:
             r = prog.run_inovesa(exe, P.args_of(base, out="out_%s" % name, extra=["-i", name]), d)
             simulated = os.path.exists(os.path.join(d, "out_%s" % name)) or "Starting the simulation" in r.out
             said = ("rror" in r.err) or ("rror" in r.out) or ("not" in r.err.lower())
@@ -183,7 +190,7 @@ def run(chk):
     chk.cov["distinct_nontrivial"] = len({repr(c) for c in cfgs}) + 4
     chk.cov["rule"] = ("leg1(T1) -> leg2(T2) started from leg1's results file vs one run over T1+T2 (single bunch, random "
                        "grid/impedance/cadences/split points, RenormalizeCharge in {-1,0,4}, every third case a chosen "
-                       "start record incl. negative indices); bit-wise for RenormalizeCharge<0; four unusable start files")
+                       "start record incl. negative indices); bit-wise for RenormalizeCharge<0; ten unusable start files (missing, not HDF5, empty, multi-bunch, no record, scalar, rank 2, no data set)")
     chk.cov["renormalised_restart_relative_differences"] = rels[:20]
     chk.cov["samples"] = [{"config": cfgs[0]},
                           {"theorem": "Inovesa.Props.C11.split_run (RenormalizeCharge<0): grid after a+b steps = grid after b steps started from the stored grid of an a-step run; last_record_is_final_state; split_run_full_false (with renormalisation the statement is false of the code)"}]
